@@ -45,6 +45,9 @@ def run(ctx):
     r4 = ctx.rule("C14.R4", "VIEW (interpreted, engine shared with C01.R9 / C10.R6): the tensor viewers that Simultaneous.sample stitches the constituents' draws with: ONE viewer object used first on flat tensors (an expected-data or Asimov evaluation of the model) and then on tensors with leading sample axes places every part at its own positions in both uses, and again after the same buffers were refilled in place", "VIEW", floor=3)
     from . import viewers
     viewers.check(ctx, r4)
+    r5 = ctx.rule("C14.R5", "TOY-HISTORY (interpreted, engine shared with C08.R6): hypotest(calctype='toybased') called three times on ONE model at ONE tested value with the same statistic and number of toys -- other data in the second call, other fixed flags in the third -- with the toy calculator as a recorder: every call builds its calculator from its own data and fit configuration and takes statistic, toy distributions and p-values from THAT calculator (pseudo-data are generated at the parameters fitted to this call's data)", "HISTORY", floor=1)
+    from .c08 import toy_history_standalone
+    toy_history_standalone(ctx, r5, repo)
 
     # ---------------- R1
     pv = ed.methods["pvalue"]
